@@ -186,3 +186,46 @@ Definition exp_sk_VFS_CopyToDirectoryWithContext : list sk := [
   SkCall "VFS.CopyWithContext"%string true;
   SkRet "bare"%string
 ].
+Definition exp_sk_VFS_RemoveWithPrivileges : list sk := [
+  SkIf "dir != ''"%string;
+  SkEndIf;
+  SkCall "VFS.RemoveWithContext"%string false;
+  SkIf "commonerrors.Any(err,nil,commonerrors.ErrTimeout,commonerrors.ErrCancelled)"%string;
+  SkRet "bare"%string;
+  SkEndIf;
+  SkOp HLstat "dir"%string;
+  SkIf "lErr != nil || !IsSymLink(info)"%string;
+  SkOp HChown "dir"%string;
+  SkEndIf;
+  SkIf "subErr == nil"%string;
+  SkCall "VFS.RemoveWithContext"%string false;
+  SkIf "commonerrors.Any(err,nil,commonerrors.ErrTimeout,commonerrors.ErrCancelled)"%string;
+  SkRet "bare"%string;
+  SkEndIf;
+  SkEndIf;
+  SkIf "ok"%string;
+  SkOp HRemove "dir"%string;
+  SkEndIf;
+  SkRet "bare"%string
+].
+Definition exp_sk_VFS_ReadFileContent : list sk := [
+  SkChk;
+  SkIf "file == nil"%string;
+  SkRet "bare"%string;
+  SkEndIf;
+  SkIf "limits == nil"%string;
+  SkRet "bare"%string;
+  SkEndIf;
+  SkIf "limits.Apply()"%string;
+  SkEndIf;
+  SkOp HStat "file"%string;
+  SkIf "err == nil"%string;
+  SkIf "fileSize < 1e9"%string;
+  SkEndIf;
+  SkIf "limits.Apply() && fileSize > max"%string;
+  SkRet "bare"%string;
+  SkEndIf;
+  SkEndIf;
+  SkOp HCopyStream "safeio.ReadAtMost"%string;
+  SkRet "bare"%string
+].
